@@ -547,6 +547,8 @@ package larking
 //@   ensures [latched] old(s.rEOF) ==> err == io.EOF && len(msg) == 0
 //@   ensures [size] err == nil ==> len(msg) <= s.opts.maxReceiveMessageSize
 //@   ensures [no-phantom C06] at "return count, b[:n], err" s.rEOF && !old(s.rEOF) && err == nil ==> len(msg) > 0
+//@   ensures [clean-eof-only-from-codec C06 C15] at "return count, nil, io.EOF" err#1 == io.EOF
+//@   ensures [codec-error-propagates C06 C15] at "return count, b[:n], err" err#1 != nil && err#1 != io.EOF ==> err == err#1
 //@   ensures [carry C06] at "return count, b[:n], err" err == nil ==> Buffered(s.rbuf, s.r, rdpos(s.r) - len(s.rbuf))
 //@   ensures [message-window C06] at "return count, b[:n], err" err == nil ==>
 //@        (forall x :: off(msg) <= x && x < off(msg) + len(msg) ==> raw(msg)[x] == rdS(s.r)[x - off(msg) + rdpos(s.r) - len(s.rbuf) - len(msg)])
@@ -582,8 +584,10 @@ package larking
 // codecs, compressors, sync and stats are abstracted and listed).
 //@ func (*streamGRPC).isDone trusted pure
 //@ func (*streamGRPC).decompress trusted
+//@   requires s != nil && s.comp != nil
 //@   modifies G$buf.
 //@ func (*streamGRPC).compress trusted
+//@   requires s != nil && s.comp != nil
 //@   modifies G$buf.
 //@ func (*streamGRPC).SendHeader trusted
 //@   modifies F$streamGRPC.header, F$streamGRPC.sentHeader
